@@ -1,4 +1,4 @@
-import MlModel.Lemmas.QueueLiveProgs
+import MlModel.Lemmas.QueueLiveFinInv
 import MlModel.Properties.C04
 /-!
 # C04 — iterator queues always terminate (liveness part)
@@ -139,9 +139,132 @@ theorem C04_no_deadlock (hwf : WF_enq maxEnq progs)
     · rw [hcap, hS, hCo]; exact hC
   · exact Or.inr hdead
 
+/-! ## 2. Final states of fault-free runs -/
+
+/-- all producers' return values, in program order -/
+def allRets (progs : List Prog) : List Nat := (progs.map progRet).flatten
+
+/-- **Final-state theorem.**  Fault-free setting: no failing source item, no stopper, no timeout,
+`WF_enq`.  In every reachable configuration in which all threads are done:
+* every consumer ended with `StopIteration(*r)` where `r` is a permutation of **all** producers'
+  return values (in fact `r = returned`);
+* nothing was dropped by a raising `get_batch` (`lost = []`), and if there is a consumer the queue
+  is empty, and then the concatenation of what the consumers received is a permutation of
+  everything that was put (`C04_exactly_once`): every produced element is received by exactly one
+  consumer;
+* every producer has put **all** values of its source, in order, and returned normally. -/
+theorem C04_final (hwf : WF_enq maxEnq progs) (hnf : ∀ p ∈ progs, p.noFail = true)
+    (hns : ∀ p ∈ progs, p.isStopper = false)
+    (h : Reachable (init cap maxEnq false ig progs) c) (hall : c.allDone = true) :
+    (∀ t ∈ c.ths, isCons t = true →
+      t.outcome = some (.stop c.sh.returned) ∧ c.sh.returned.Perm (allRets progs)) ∧
+    c.sh.lost = [] ∧
+    ((∃ p ∈ progs, p.isCons = true) →
+      c.sh.q = [] ∧ c.sh.produced.Perm (c.ths.map (·.received)).flatten) ∧
+    (∀ (tid : Tid) (t : Thread) (src : List Item) (r : Nat), c.ths[tid]? = some t →
+      t.prog = .producer src r → producedBy tid c.sh.produced = vals src ∧ t.outcome = none) := by
+  have hb := base_reachable (base_init cap maxEnq false ig progs hwf) h
+  have hf := fin_reachable hwf hnf hns h
+  have hto : c.sh.timeout = false := timeout_reachable h
+  have hpr := progs_reachable h
+  have hdone : ∀ t ∈ c.ths, t.pc = .done := by
+    intro t ht
+    unfold Cfg.allDone at hall
+    rw [List.all_eq_true] at hall
+    simpa using hall t ht
+  -- no producer left early, so every producer has stopped
+  have hstopped : ∀ t ∈ c.ths, isProd t = true → stopped t = true := by
+    intro t ht hp
+    cases hs : stopped t with
+    | true => rfl
+    | false =>
+      exfalso
+      have he : early t = true := by simp [early, hp, hdone t ht, hs]
+      have hd := hb.early ⟨t, ht, he⟩
+      have := all_pastT_of_done hb hf.sr hf.exc hd t ht hp
+      simp [pastT, hp, hdone t ht, hs] at this
+  have hretOf : ∀ t ∈ c.ths, retOf t = progRet t.prog := by
+    intro t ht
+    cases hp : isProd t with
+    | true =>
+      have hs := hstopped t ht hp
+      have : pastT t = true := by simp [pastT, hp, hdone t ht, hs]
+      rw [retOf, if_pos this]
+      exact (hf.ct t ht).2.2.2.2.1 hs
+    | false =>
+      have : pastT t = false := by simp [pastT, hp]
+      rw [retOf, this]
+      simp only [Bool.false_eq_true, if_false]
+      cases hpg : t.prog <;> simp_all [isProd, Prog.kind, progRet]
+  have hret : c.sh.returned.Perm (allRets progs) := by
+    have h1 : (c.ths.map retOf) = (c.ths.map (fun t => progRet t.prog)) :=
+      List.map_congr_left hretOf
+    have h2 : (c.ths.map (fun t => progRet t.prog)) = progs.map progRet := by
+      rw [← hpr, List.map_map]; rfl
+    have := hf.ret
+    rw [h1, h2] at this
+    exact this
+  have hfinal : c.sh.final = .stop c.sh.returned := by
+    unfold Shared.final; rw [hf.exc]
+  refine ⟨?_, hf.lost, ?_, ?_⟩
+  · intro t ht hc
+    refine ⟨?_, hret⟩
+    rw [← hfinal]
+    exact (hf.ax t ht).2 (hdone t ht) hc
+  · intro hcons
+    obtain ⟨t, ht, hc⟩ := (anyT_progs hpr isCons Prog.isCons (fun _ => rfl)).mpr hcons
+    have hex : c.sh.exhausted = true := by
+      have : armed t = true := by unfold armed; rw [hdone t ht]; exact hc
+      rcases (hb.xok t ht).2.2.2.2.1 this with h1 | h1
+      · exact h1
+      · rw [hto] at h1; cases h1
+    have hq := hf.qe hex
+    refine ⟨hq, ?_⟩
+    have := C04_exactly_once h
+    rw [hq, hf.lost, List.nil_append, List.append_nil] at this
+    have hs : sumSeq c.ths = (c.ths.map (·.received)).flatten := by
+      unfold sumSeq
+      congr 1
+      apply List.map_congr_left
+      intro u hu
+      have hres := (hf.ct u hu).2.2.2.2.2.2.1 (Or.inl (hdone u hu))
+      simp [seqOf, inHand, inHandPc, hdone u hu, hres]
+    rw [hs] at this
+    exact this
+  · intro tid t src r ht hp
+    have htm := List.mem_of_getElem? ht
+    have hpd : isProd t = true := by simp [isProd, hp, Prog.kind]
+    have hs := hstopped t htm hpd
+    have h1 := hf.prod tid t src r ht hp
+    have hsrc := (hf.ct t htm).2.2.2.2.2.1 hs
+    have htodo : todoV t = [] := by
+      simp [todoV, hp, hdone t htm, pendPc, hsrc, vals]
+    rw [htodo, List.append_nil] at h1
+    refine ⟨h1, ?_⟩
+    -- the producer returned normally: it did not raise
+    exact (hf.ct t htm).2.2.2.2.2.2.2.2 (hdone t htm) hpd
+
 /-! ### Non-vacuity (tests of the definitions, by `decide` over concrete schedules) -/
 
 example : WF_enq 2 [.producer [.val 1] 9, .producer [] 8, .getLoop] := by decide
+
+/-- a complete run of 2 producers, a `get` consumer and a blocking `get_batch(2)` consumer over a
+queue of capacity 1: the hypotheses of `C04_final` hold and its conclusion is what is observed —
+both consumers end with `StopIteration(901, 900)` (a permutation of `allRets = [900, 901]`) -/
+def finalProgs : List Prog :=
+  [.producer [.val 1, .val 2] 900, .producer [.val 3] 901, .getLoop, .batchLoop 2 true]
+
+def finalSched : List (Tid × Bool) :=
+  ([1, 2, 3, 0, 1, 2, 1, 2, 1, 2, 1, 2, 0, 1, 2, 3, 0, 1, 0, 1, 3, 1, 3, 0, 3, 0, 3, 0, 0, 3, 0, 3, 3, 3, 3, 0, 3, 0, 3, 0,
+    1, 3, 0, 1, 0, 1, 2, 0, 1, 2, 1, 2, 0, 1, 2, 0, 1, 2, 3, 1, 3, 3, 3, 3, 0, 0, 3, 0, 3, 3, 3, 0, 3, 0, 3, 0, 2, 3, 0, 2,
+    0, 2, 0, 2, 0, 2, 3, 0, 3, 3, 3, 3, 3, 3, 0, 3, 0, 3, 0, 2, 3, 0, 0, 2, 0, 2, 0, 2, 0, 2, 3, 0, 0, 3, 3, 3, 3] : List Nat).map (·, false)
+
+example : WF_enq 2 finalProgs ∧ (∀ p ∈ finalProgs, p.noFail = true) ∧ (∀ p ∈ finalProgs, p.isStopper = false) ∧
+    ∃ c, Reachable (init 1 2 false false finalProgs) c ∧ c.allDone = true ∧
+      c.ths.map (·.outcome) = [none, none, some (.stop [901, 900]), some (.stop [901, 900])] ∧
+      c.ths.map (·.received) = [[], [], [], [(1, 3), (0, 1), (0, 2)]] ∧ allRets finalProgs = [900, 901] :=
+  ⟨by decide, by decide, by decide, _, reachable_replay (init 1 2 false false finalProgs) finalSched (by decide),
+    by decide, by decide, by decide, by decide⟩
 
 /-- a reachable configuration with a parked consumer (`gWake`, in `deqWait`) … -/
 example : ∃ c, Reachable (init 1 1 false false [.producer [.val 5] 9, .getLoop]) c ∧
